@@ -67,6 +67,7 @@ class Cfg:
         self.terminating_with_funcs = False
         self.call_bias = 0  # extra percentage of statements that are calls
         self.tail_call_bias = 0  # percentage of functions that end in a statement call
+        self.multiline = True
         self.nested_defs = False  # nested function definitions: open finding F-D36 (register clash)
         self.d5_args = False  # pass bare names of writable globals as arguments (open finding F-D5 shape):
         #                       only for oracles that do not compare with the source interpreter
@@ -140,6 +141,10 @@ class ProgGen:
         k = self.n(0, 99)
         if k < 40:
             op = self.choice(["+", "-", "*", "+", "-"])
+            if self.cfg.multiline and self.chance(12):
+                # a statement spanning several lines (continuation inside the parentheses)
+                self.features.add("multi-line-expression")
+                return f"({self.expr(vars_, d + 1)} {op}\n            {self.expr(vars_, d + 1)})"
             return f"({self.expr(vars_, d + 1)} {op} {self.expr(vars_, d + 1)})"
         if k < 48:
             return f"({self.expr(vars_, d + 1)} / {self.choice(['2', '4', '8', '-2'])})"
